@@ -139,6 +139,20 @@ func c08Policies(a *refsem.Arch, tier string) []c08Job {
 				{Action: seccomp.ActionKillProcess, NamesWithCondtions: []seccomp.NameWithConditions{{Name: P[1], Conditions: seccomp.ArgumentConditions{c2}}}, Names: []string{P[4]}}}, n%5 == 0, uint32(n%2), n%4 < 2)
 		}
 	}
+	if tier == "thorough" {
+		// the rotation of (flags, no_new_privs, uid) used above becomes the full product
+		var all []c08Job
+		for _, j := range jobs {
+			for _, fl := range []uint32{0, 1} {
+				for _, nnp := range []bool{false, true} {
+					for _, unpriv := range []bool{false, true} {
+						all = append(all, c08Job{j.label, j.pol, fl, nnp, unpriv})
+					}
+				}
+			}
+		}
+		jobs = all
+	}
 	return jobs
 }
 
@@ -189,7 +203,7 @@ func checkC08(tier, replay string) int {
 	ctx.Cov["loads_after_a_foreign_load_on_another_thread"] = atomic.LoadInt64(&c08Pre)
 	ctx.Cov["kill_process_events_observed_as_SIGSYS"] = kills
 	ctx.Cov["policies_loaded"] = len(jobs)
-	ctx.Cov["rule"] = "states = policies of probe scope S8 over {getpgrp,getppid,getuid,geteuid,getgid,getegid} (names-only with 1-2 groups and 4 actions; single conditions over 8 ops x 6 argument registers x boundary operands; AND lists, OR lists, conditional entries in two groups, kill_process behind a condition; with and without the whole remaining table as a >255-instruction allow group), each loaded by the real LoadFilter in a fresh child with flags in {0,tsync} and no_new_privs on/off, as root and as uid 65534, about half of the loads with a policy value that was assembled and dumped in an earlier shape (one group less, another default action) before being completed, a third after another thread has loaded a longer unrelated filter, a third followed by a load of the same filter on the second thread (which then must be filtered too); transitions = probe events: every probe syscall x every cell of the exact partition of the argument registers, issued with RawSyscall6 from the loading thread and from a second thread; the reference decision (model) is compared with errno / SIGSYS observed on the real kernel, and the sock_fprog captured at the seam hook with the program compiled in the parent"
+	ctx.Cov["rule"] = "states = policies of probe scope S8 over {getpgrp,getppid,getuid,geteuid,getgid,getegid} (names-only with 1-2 groups and 4 actions; single conditions over 8 ops x 6 argument registers x boundary operands; AND lists, OR lists, conditional entries in two groups, kill_process behind a condition; with and without the whole remaining table as a >255-instruction allow group), each loaded by the real LoadFilter in a fresh child with flags in {0,tsync} and no_new_privs on/off, as root and as uid 65534 (quick tier: one combination per policy in rotation; thorough tier: all eight for every policy), about half of the loads with a policy value that was assembled and dumped in an earlier shape (one group less, another default action) before being completed, a third after another thread has loaded a longer unrelated filter, a third followed by a load of the same filter on the second thread (which then must be filtered too); transitions = probe events: every probe syscall x every cell of the exact partition of the argument registers, issued with RawSyscall6 from the loading thread and from a second thread; the reference decision (model) is compared with errno / SIGSYS observed on the real kernel, and the sock_fprog captured at the seam hook with the program compiled in the parent"
 	ctx.Assumptions = []string{"probe syscalls ignore their arguments and always succeed when allowed", "refsem.Decide is the model; the kernel is the implementation", "only host architecture (x86_64) events can be issued"}
 	return ctx.Finish()
 }
